@@ -584,6 +584,46 @@ METHODS = [
 ]
 
 
+LIBCALL_PROG = r"""
+#include <stdlib.h>
+int rec(int n) { if (n == 0) return atoi("7") + abs(-3); return rec(n - 1) + 1; }
+int main(void) { int a = rec(%d); int b = atoi("5"); int c = abs(-6); int d = atoi("4"); return (a + b + c + d) & 0; }
+"""
+
+
+def e2e_libcall_after_overflow(ctx, objdir):
+    """library calls (PLT hooking): a function whose FIRST call happens beyond --max-stack must still be recorded when
+    it is called again inside the limit (repaired defect plt-first-call-beyond-max-stack)"""
+    uft = os.path.join(objdir, "uftrace")
+    work = os.path.join(ctx.scratch, "e2e-plt")
+    os.makedirs(work, exist_ok=True)
+    for ms, depth in ((8, 20), (3, 3)):
+        src = LIBCALL_PROG % depth
+        cfile = os.path.join(work, "l%d.c" % ms)
+        open(cfile, "w").write(src)
+        exe = os.path.join(work, "l%d" % ms)
+        rc, o, e = sh(["gcc", "-O0", "-pg", "-fno-builtin", "-o", exe, cfile], timeout=120)
+        if rc != 0:
+            ctx.broken("libcall program does not compile", e[-300:])
+            return
+        dd = os.path.join(work, "d%d" % ms)
+        rc, o, e = sh(["timeout", "60", uft, "record", "--no-pager", "--no-event", "--libmcount-path=" + objdir,
+                       "--max-stack=%d" % ms, "-d", dd, exe], timeout=90)
+        if rc != 0:
+            ctx.violation("uftrace record failed on the library-call program (rc=%d)" % rc, {"mode": "e2e", "program": src}, True)
+            continue
+        streams = decode_dir(dd)
+        recs = [r for v in streams.values() for r in v]
+        later = [(r[2], r[1]) for r in recs if r[0] == 0 and r[1] == 1 and r[2] in ("atoi", "abs")]
+        ctx.case(key=("e2e-plt", ms), tags=["e2e:libcall-after-overflow", "max_stack=%d" % ms], size=len(recs))
+        if later != [("atoi", 1), ("abs", 1), ("atoi", 1)]:
+            ctx.violation("C02 violated (end to end): library calls made from main() at depth 1, inside --max-stack=%d, are "
+                          "missing from the trace after the same functions were first called beyond the limit: recorded %s, "
+                          "expected atoi, abs, atoi" % (ms, [n for n, _ in later]),
+                          {"mode": "e2e", "program": src, "max_stack": ms,
+                           "records": [(r[0], r[1], r[2]) for r in recs][:80]}, True)
+
+
 def e2e(ctx, objdir):
     rng = ctx.rng
     uft = os.path.join(objdir, "uftrace")
@@ -693,6 +733,7 @@ def run(ctx):
     zero_duration_regression(ctx)
     threads_and_fork(ctx)
     e2e(ctx, objdir)
+    e2e_libcall_after_overflow(ctx, objdir)
 
 
 def replay(ctx, obj):
